@@ -40,6 +40,7 @@ func verifWalk(data []byte, maxObj int, scan bool) {
 		if err != nil {
 			continue
 		}
+		verifrt.Cover("opened")
 		for n := 0; n <= maxObj; n++ {
 			obj, err := r.Get(NewReference(uint32(n), 0), true)
 			if err != nil {
@@ -126,7 +127,10 @@ func Verif_C05_byte_mutations() {
 // filter) whose /Size, /W, /Index, /Prev and /Length and an object stream's
 // /N and /First are tampered with: one field at a time takes any int64.
 func Verif_C05_xref_tampering() {
-	field := verifrt.Choice("field", 9)
+	verifrt.TerminationBound(20000)
+	// fields 0..8: one integer takes any value; 9..12: the object stream names
+	// an indirect object as its /DecodeParms
+	field := verifrt.Choice("field", 13)
 	val := func(k int, def int64) int64 {
 		if k == field {
 			return verifrt.Int64("tampered")
@@ -144,7 +148,19 @@ func Verif_C05_xref_tampering() {
 	f.WriteString("2 0 obj\n<</Type/Pages/Kids[]/Count 0>>\nendobj\n")
 	o3 := f.Len() - len(junk)
 	members := "4 0 5 2 7 (s)"
-	fmt.Fprintf(&f, "3 0 obj\n<</Type/ObjStm/N %d/First %d/Length %d>>\nstream\n%s\nendstream\nendobj\n", val(0, 2), val(1, 8), val(2, int64(len(members))), members)
+	parms := ""
+	if field >= 9 {
+		// a member of itself, an ordinary object, a missing one; parameters
+		// are only looked at for a filtered stream
+		parms = "/Filter/LZWDecode" + []string{"/DecodeParms 4 0 R", "/DecodeParms[5 0 R]", "/DecodeParms 2 0 R", "/DecodeParms 9 0 R"}[field-9]
+		var enc bytes.Buffer
+		lw, err := FilterLZW{}.Encode(V1_7, withDummyClose{&enc})
+		verifrt.Assert(err == nil, "LZW encoder available")
+		lw.Write([]byte(members))
+		lw.Close()
+		members = enc.String()
+	}
+	fmt.Fprintf(&f, "3 0 obj\n<</Type/ObjStm/N %d/First %d/Length %d%s>>\nstream\n%s\nendstream\nendobj\n", val(0, 2), val(1, 8), val(2, int64(len(members))), parms, members)
 	o6 := f.Len() - len(junk)
 	// entries: 0 free, 1,2,3 in use, 4,5 in object stream 3, 6 the xref stream
 	var body bytes.Buffer
@@ -161,8 +177,13 @@ func Verif_C05_xref_tampering() {
 	ent(2, 3, 0)
 	ent(2, 3, 1)
 	ent(1, o6, 0)
-	fmt.Fprintf(&f, "6 0 obj\n<</Type/XRef/Size %d/Root 1 0 R/W[%d %d %d]/Index[%d %d]/Prev %d/Length %d>>\nstream\n",
-		val(3, 7), val(4, 1), val(5, 2), 1, val(6, 0), val(7, 7), val(8, 0), int64(body.Len()))
+	// /Prev only when it is the tampered field (a file with one section has none)
+	prevEntry := ""
+	if field == 8 {
+		prevEntry = fmt.Sprintf("/Prev %d", val(8, 0))
+	}
+	fmt.Fprintf(&f, "6 0 obj\n<</Type/XRef/Size %d/Root 1 0 R/W[%d %d %d]/Index[%d %d]%s/Length %d>>\nstream\n",
+		val(3, 7), val(4, 1), val(5, 2), 1, val(6, 0), val(7, 7), prevEntry, int64(body.Len()))
 	f.Write(body.Bytes())
 	f.WriteString("\nendstream\nendobj\n")
 	fmt.Fprintf(&f, "startxref\n%d\n%%%%EOF\n", o6)
